@@ -153,7 +153,22 @@ fn attacks(rec: &mut Rec, ctx: &Ctx, idx: u64, rng: &mut ChaCha20Rng) {
   let ml = if near { *pick(rng, &[66usize, 100, 130, 200]) } else { rng.gen_range(8..48) };
   let m = content(rng, ml, Content::Uniform);
   let e = rand_bytes_in(rng, 0..8);
-  let tb = if rng.gen_bool(0.5) { t } else { rng.gen_range(2..=8) };
+  // every 7th case: target (x sep y, z) and foreign (x, y sep z) - the same bytes around a separator
+  let shifted = idx % 7 == 3;
+  let (m, e) = if shifted {
+    let sep = *pick(rng, &[b'|', b',', b':', b'/', 0u8, b' ']);
+    let a = |rng: &mut ChaCha20Rng| -> Vec<u8> { (0..rng.gen_range(2..8)).map(|_| rng.gen_range(b'a'..=b'z')).collect() };
+    let (x, y, z) = (a(rng), a(rng), a(rng));
+    let mut m1 = x.clone();
+    m1.push(sep);
+    m1.extend_from_slice(&y);
+    (m1, z)
+  } else {
+    (m, e)
+  };
+  let near = near && !shifted;
+  let ml = m.len();
+  let tb = if shifted || rng.gen_bool(0.5) { t } else { rng.gen_range(2..=8) };
   let td = if t > 2 { t - 1 } else { t + 1 };
   rec.evals += 1;
   let mk = |rng: &mut ChaCha20Rng, m: &[u8], e: &[u8], t: u32| make(rng, m, e, t, t as usize + 1, 12);
@@ -168,7 +183,17 @@ fn attacks(rec: &mut Rec, ctx: &Ctx, idx: u64, rng: &mut ChaCha20Rng) {
   };
   let mut e2 = e.clone();
   e2.push(7);
-  let all = (mk(rng, &m, &e, t), mk(rng, &m2, &e, tb), mk(rng, &m, &e2, t), mk(rng, &m, &e, td));
+  // for the shifted case the "other measurement" sharing is (x, y sep z) under the shifted epoch
+  let (m2, eb) = if shifted {
+    let cut = m.iter().position(|b| !b.is_ascii_lowercase()).unwrap_or(1);
+    let mut eb2 = m[cut + 1..].to_vec();
+    eb2.push(m[cut]);
+    eb2.extend_from_slice(&e);
+    (m[..cut].to_vec(), eb2)
+  } else {
+    (m2, e.clone())
+  };
+  let all = (mk(rng, &m, &e, t), mk(rng, &m2, &eb, tb), mk(rng, &m, &e2, t), mk(rng, &m, &e, td));
   let (a, b, c, d) = match all {
     (Ok(a), Ok(b), Ok(c), Ok(d)) => (a, b, c, d),
     _ => {
